@@ -48,8 +48,11 @@ def sigma_clip_ref(v, sigma_lower=3.0, sigma_upper=3.0, maxiters=5, cenfunc='med
             break
         c, s = _cen(cur, cenfunc), _std(cur, stdfunc)
         lo, hi = c - s * sigma_lower, c + s * sigma_upper
-        if not (s == 0.0 and np.all(cur == c)):
-            # (a set of identical values with zero spread is kept by any implementation: not a tie)
+        if not (s == 0.0 and np.all(cur == c) and cenfunc == 'median'):
+            # (a set of identical values with zero spread is kept by any implementation whose centre is exact: the
+            # median. The MEAN of n identical floats need not be that float - astropy's nanmean gave
+            # -1.3024964703591597 for sixteen copies of -1.3024964703591602 and clipped all of them, thorough seed 4 -
+            # so with cenfunc='mean' such a set is a tie that rounding decides)
             d = np.minimum(np.abs(cur - lo), np.abs(cur - hi))
             margin = min(margin, float(d.min()) / scale)
         new = cur[(cur >= lo) & (cur <= hi)]
